@@ -60,7 +60,7 @@ def run_lines(h, lines, timeout=1500):
             fr = [x for x in fr if not x.startswith('__interceptor') and x not in ('malloc', 'calloc', 'realloc')]
             replies[-1] += ' LEAKSITE=' + (fr[0] if fr else '?')
             start = done; continue
-        if res and res[-1] == 'HANG':
+        if res and res[-1].startswith('HANG'):
             start = done; continue          # the HANG line is the reply of the hanging case
         cut = max(err.rfind('ERROR: AddressSanitizer'), err.rfind('Assertion `'), err.rfind('runtime error:'))
         if cut >= 0: cut = err.rfind('\n', 0, cut) + 1
@@ -84,13 +84,20 @@ def judge(ctx, c, r):
     kl = c['klass']
     ctx.count(repr((c['opts'], c['gen'], c.get('data'), c.get('path'))), klass=kl.split(':')[0])
     base = kl.split(':')[0]
-    if r.startswith('CRASH') or r == 'HANG' or not r.startswith('R '):
-        what = 'hang (alarm)' if 'HANG' in r else 'crash / sanitizer report'
+    if r.startswith('HANG'):
+        # termination clause: the per-case alarm fired, or diagnostics were delivered without bound (runaway error loop)
+        budget = base in ('error_budget', 'many_error_truncation', 'truncation', 'token_mutation', 'random_bytes', 'include_mutated') or base.startswith('stress')
+        key = 'hang:error-cap' if ('flood' in r or budget) else 'hang:%s' % base
+        ctx.violation(key, 'schema compiler does not terminate on %s input (%s): %s' % (
+            kl, 'unbounded stream of diagnostics: the error cap does not end the parse' if 'flood' in r else 'per-case alarm expired', r), replay_of(c, r))
+        return 0
+    if r.startswith('CRASH') or not r.startswith('R '):
+        what = 'crash / sanitizer report'
         m = re.search(r'(AddressSanitizer: [\w-]+|runtime error: [^_]{0,60}|LeakSanitizer[^ ]*)', r)
         site = re.search(r'#\d+ 0x[0-9a-f]+ in (\w+) ', r)
         am = re.search(r'(\w+\.[ch]):(\d+): [^:]*: Assertion', r)
         if am: key = 'assert:%s:%s' % (am.group(1), am.group(2)); what = 'assertion failure (abort in builds without NDEBUG)'
-        else: key = 'crash:%s:%s' % (re.sub(r'\s+', '_', re.sub(r"0x[0-9a-f]+.*|'.*", '', m.group(1)).strip()) if m else ('hang' if 'HANG' in r else 'abort'), site.group(1) if site else '?')
+        else: key = 'crash:%s:%s' % (re.sub(r'\s+', '_', re.sub(r"0x[0-9a-f]+.*|'.*", '', m.group(1)).strip()) if m else 'abort', site.group(1) if site else '?')
         ctx.violation(key, 'schema compiler %s on %s input: %s' % (what, kl, r[:300]), replay_of(c, r))
         return 0
     f = r.split(' ', 7)
@@ -221,6 +228,15 @@ def run(ctx):
         b = t.encode()
         for k in range(len(b) + 1):
             add_buf('truncation', b[:k], opts=rng.choice(GEN_SETS[:3]), gen=2)
+    # ---- 4b: error budget: k = 0..14 diagnostics from one- and two-diagnostic items in each kind of body, then end of input inside a body
+    #      (termination there rests on the FLATCC_MAX_ERRORS cap alone), and truncation of many-error inputs at every byte
+    for label, text in G.error_budget_inputs(rng, full=T):
+        add_buf('error_budget:' + label, text, opts=rng.choice(['cgen_reader=1', 'bgen_bfbs=1', '-']), gen=2)
+    for k, text in enumerate(G.many_error_texts(rng, 6 if T else 3)):
+        b = text.encode()
+        for cut in range(len(b) + 1):
+            add_buf('many_error_truncation', b[:cut], opts='cgen_reader=1', gen=2)
+        add_file('many_error_truncation', {'a.fbs': 'include "b.fbs";\ntable A { x:int; }\n', 'b.fbs': text[:len(text) * 2 // 3]}, 'a.fbs', 'reject', opts='cgen_reader=1', gen=2)
     # ---- 5: random bytes / token soup
     for _ in range(4000 if T else 1000):
         k = rng.random()
@@ -294,6 +310,15 @@ def run(ctx):
              opts='cgen_reader=1,cgen_common_reader=1,max_schema_size=200', gen=2)
     add_file('root_too_big', {'a.fbs': 'table A { x:int; }\n' + '// pad\n' * 100}, 'a.fbs', 'reject', opts='bgen_bfbs=1,max_schema_size=100', gen=2)
     add_file('root_missing', {'a.fbs': 'table A { x:int; }\n'}, 'zz.fbs', 'reject', opts=GEN_SETS[1], gen=2)
+    # files are read by fb_read_file (not by the caller): ends of file that the lexer scans up to a terminator
+    for k, tail in enumerate(['7', 'table T { a:int = 1', 'table T3 { 0', 'struct S { a:[int:3', 'table T { a:float = 1.5e1', 'table T { abc', 'table T { a:int; } // 9',
+                              'table T { a:int; }\nfile_identifier "AB', 'enum E:int { A = 0x1f', 'table T { a:int; } /* 1']):
+        add_file('file_end:%d' % k, {'a.fbs': tail}, 'a.fbs', None, gen=2)
+        add_file('file_end_included:%d' % k, {'a.fbs': 'include "b.fbs";\ntable A { x:int; }\n', 'b.fbs': tail}, 'a.fbs', None, gen=2)
+    for t in sorted(valid_texts, key=len)[:1]:
+        b = t.encode()
+        for cut in range(0, len(b) + 1, 1 if T else 3):
+            add_file('file_truncation', {'a.fbs': b[:cut]}, 'a.fbs', None, opts='cgen_reader=1', gen=2)
     add_file('include_subdir', {'a.fbs': 'include "sub/b.fbs";\ntable A { x:B; }\n', 'sub/b.fbs': 'include "c.fbs";\ntable B { y:C; }\n', 'sub/c.fbs': 'table C { z:int; }\n'},
              'a.fbs', None, gen=2)
     add_file('include_type_not_visible', {'a.fbs': 'include "b.fbs";\ntable A { x:int; }\n', 'b.fbs': 'table B { y:A; }\n'}, 'a.fbs', 'reject', gen=2)
@@ -317,7 +342,8 @@ def run(ctx):
             else: lines.append('file %s %d %s %s' % (c['opts'], c['gen'], od, c['path']))
         open(os.path.join(ctx.bdir, 'chunk%d.txt' % idx), 'w').write('\n'.join(lines) + '\n')
         h = lib.Harness(exe, env={'ASAN_OPTIONS': 'detect_leaks=1:abort_on_error=0:allocator_may_return_null=1:detect_stack_use_after_return=0',
-                                  'LSAN_OPTIONS': 'report_objects=0:print_suppressions=0', 'UBSAN_OPTIONS': 'print_stacktrace=1'})
+                                  'LSAN_OPTIONS': 'report_objects=0:print_suppressions=0', 'UBSAN_OPTIONS': 'print_stacktrace=1',
+                                  'COMPILE_FUZZ_ALARM': '20' if T else '6', 'COMPILE_FUZZ_FLOOD': '20000'})
         return run_lines(h, lines)
     ctx.log('%d cases in %d histories' % (len(cases), nproc))
     res = U.pmap(runchunk, list(enumerate(chunks)), n=nproc)
